@@ -10,7 +10,7 @@ mkdir -p $D
 git -C /repo worktree add -q --detach $D/repo HEAD || exit 2
 trap 'cd /; git -C /repo worktree remove --force '$D'/repo 2>/dev/null; rm -rf '$D EXIT
 cd $D/repo
-if ! git apply "$SRC/patch.diff" 2>$D/apply.err; then echo "APPLY-FAILED: $(head -3 $D/apply.err)"; exit 3; fi
+if ! git apply "$SRC/patch.diff" 2>$D/apply.err && ! { git apply -3 "$SRC/patch.diff" 2>$D/apply.err && git reset -q; }; then echo "APPLY-FAILED: $(head -3 $D/apply.err)"; exit 3; fi
 SUITE=$(cargo test --workspace --no-fail-fast --offline 2>&1 | grep -E "^test result" | grep -v "ok\. 0 passed" | awk '{s+=$4; f+=$6} END {print s" passed "f" failed"}')
 echo "suite with change: $SUITE"
 DEMO=none
